@@ -81,13 +81,13 @@ def scalarType : J → Option TypeRef
   | _ => none
 
 /-- `converter.test(value, types)` (non strict) -/
-def converterTest (e : BEnv) (value : J) (types : List TypeRef) : Bool :=
+def converterTest (e : DEnv) (value : J) (types : List TypeRef) : Bool :=
   match value with
-  | .str s => (deserialize e s types []).isSome
+  | .str s => (deserialize e.toBEnv s types []).isSome
   | _ => false
 
 /-- `XmlVar.find_value_choice(value, is_class=False)` on a loaded value -/
-def findValueChoice (e : BEnv) (var : XmlVar) (value : J) : Except Err (Option VarCore) :=
+def findValueChoice (e : DEnv) (var : XmlVar) (value : J) : Except Err (Option VarCore) :=
   let choices := var.elements.map (·.2)
   let isTokens := value.isArr
   let empty := match value with
@@ -113,19 +113,31 @@ def findValueChoice (e : BEnv) (var : XmlVar) (value : J) : Except Err (Option V
           if isTokens && (match value with | .arr xs => xs.all (converterTest e · el.types) | _ => false) then true
           else converterTest e value el.types)
 
+/-- a field of a converter type outside this layer (`TypeRef.other name`) given a JSON string:
+`parse_var` hands the string to that type's converter; the value is kept as its canonical lexical
+form (`DEnv.other`).  `none` = not such a field / the converter raises (then `parse_var`'s usual
+warning-or-error treatment applies through the general path, which knows no converter for `other`) -/
+def leafOf (e : DEnv) (var : VarCore) (value : J) : Option Str :=
+  match var.types, value with
+  | [.other name], .str s => if var.tokens then none else e.other name s
+  | _, _ => none
+
 /-- `bind_text` for a var that is not a compound field -/
-def bindTextPlain (e : BEnv) (cfg : ParserConfig) (var : VarCore) (value : J) : Except Err Val :=
+def bindTextPlain (e : DEnv) (cfg : ParserConfig) (var : VarCore) (value : J) : Except Err Val :=
   if var.anyType || var.isWildcard then rawVal value
   -- `if not var.tokens and type(value) in var.types: return value`
   else if !var.tokens && (match scalarType value with | some t => var.types.contains t | none => false) then
     rawVal value
   else
-    match serializeJ value with
-    | .error err => .error err
-    | .ok s => (parseVar e cfg var s []).map (·.val)
+    match leafOf e var value with
+    | some x => .ok (.prim (.str x))
+    | none =>
+      match serializeJ value with
+      | .error err => .error err
+      | .ok s => (parseVar e.toBEnv cfg var s []).map (·.val)
 
 /-- `DictDecoder.bind_text` -/
-def bindText (e : BEnv) (cfg : ParserConfig) (var : XmlVar) (value : J) : Except Err Val :=
+def bindText (e : DEnv) (cfg : ParserConfig) (var : XmlVar) (value : J) : Except Err Val :=
   if var.isElements then
     match findValueChoice e var value with
     | .error err => .error err
@@ -219,7 +231,7 @@ def bindComplexWith (rec : Rec) (Γ : Ctx) (cfg : ParserConfig) (m : XmlMeta) (v
 def choiceVar (c : VarCore) : XmlVar := c.toVar
 
 /-- `DictDecoder.bind_derived_value` -/
-def bindDerivedValueWith (e : BEnv) (rec : Rec) (Γ : Ctx) (cfg : ParserConfig) (m : XmlMeta) (var : XmlVar)
+def bindDerivedValueWith (e : DEnv) (rec : Rec) (Γ : Ctx) (cfg : ParserConfig) (m : XmlMeta) (var : XmlVar)
     (kvs : List (Str × J)) : ND Val :=
   -- `data["qname"]`, `data.get("type")`, `data["value"]`
   match kvGet kvs kQName, some ((kvGet kvs kType).getD J.null), kvGet kvs kValue with
@@ -295,7 +307,7 @@ def bindAttributes (value : J) : Except Err Val :=
   | .arr _ => .error (.unsupported "attributes from a sequence")
 
 /-- `bind_value(meta, var, value, recursive=True)` : one item of a repeating element -/
-def bindItemWith (e : BEnv) (rec : Rec) (Γ : Ctx) (cfg : ParserConfig) (m : XmlMeta) (var : XmlVar)
+def bindItemWith (e : DEnv) (rec : Rec) (Γ : Ctx) (cfg : ParserConfig) (m : XmlMeta) (var : XmlVar)
     (value : J) : ND Val :=
   if var.isAttributes then ND.ofExcept (bindAttributes value)
   else
@@ -307,7 +319,7 @@ def bindItemWith (e : BEnv) (rec : Rec) (Γ : Ctx) (cfg : ParserConfig) (m : Xml
     | _ => ND.ofExcept (bindText e cfg var value)
 
 /-- `DictDecoder.bind_value(meta, var, value)` -/
-def bindValueWith (e : BEnv) (rec : Rec) (Γ : Ctx) (cfg : ParserConfig) (m : XmlMeta) (var : XmlVar)
+def bindValueWith (e : DEnv) (rec : Rec) (Γ : Ctx) (cfg : ParserConfig) (m : XmlMeta) (var : XmlVar)
     (value : J) : ND Val :=
   if var.isAttributes then ND.ofExcept (bindAttributes value)
   else
@@ -338,7 +350,7 @@ def unwrapFor (var : XmlVar) (key : Str) (value : J) : Except Err J :=
   if var.localName = key then .ok value else unwrapValue var value
 
 /-- the loop `for key, value in data.items()` of `bind_dataclass` -/
-def bindPairsWith (e : BEnv) (rec : Rec) (Γ : Ctx) (cfg : ParserConfig) (m : XmlMeta) (vars : List XmlVar) :
+def bindPairsWith (e : DEnv) (rec : Rec) (Γ : Ctx) (cfg : ParserConfig) (m : XmlMeta) (vars : List XmlVar) :
     List (Str × J) → Params → ND Params
   | [], params => ND.pure params
   | (key, value) :: rest, params =>
@@ -360,7 +372,7 @@ def bindPairsWith (e : BEnv) (rec : Rec) (Γ : Ctx) (cfg : ParserConfig) (m : Xm
             | .ok () => bindPairsWith e rec Γ cfg m vars rest params
 
 /-- `DictDecoder.bind_dataclass(data, clazz)` -/
-def bindDataclassWith (e : BEnv) (rec : Rec) (Γ : Ctx) (cfg : ParserConfig) (clazz : ClassId) (data : J) : ND Val :=
+def bindDataclassWith (e : DEnv) (rec : Rec) (Γ : Ctx) (cfg : ParserConfig) (clazz : ClassId) (data : J) : ND Val :=
   match data with
   | .obj kvs =>
     if keysEq kvs derivedKeys then bindDerivedDataclassWith rec Γ cfg clazz kvs
@@ -374,7 +386,7 @@ def bindDataclassWith (e : BEnv) (rec : Rec) (Γ : Ctx) (cfg : ParserConfig) (cl
           | .ok v => ND.ofExcept (genericView v)
   | _ => ND.fail (.parser "Expected an object")      -- `isinstance(data, dict)` guard
 
-def bindDataclassF (e : BEnv) (Γ : Ctx) : Nat → Rec
+def bindDataclassF (e : DEnv) (Γ : Ctx) : Nat → Rec
   | 0 => fun _ _ _ => ND.fail (.unsupported "fuel")
   | n + 1 => fun cfg clazz data => bindDataclassWith e (bindDataclassF e Γ n) Γ cfg clazz data
 
@@ -437,7 +449,7 @@ def verifyType (Γ : Ctx) (target : Target) (data : J) : Except Err ClassId :=
   | .listOf c => if !data.isArr then .error (.parser "Document is object, expected array") else .ok c
 
 /-- `DictDecoder.decode(data, clazz)`; a list document decodes to `Val.list` -/
-def decode (e : BEnv) (Γ : Ctx) (cfg : ParserConfig) (fuel : Nat) (target : Target) (data : J) : ND Val :=
+def decode (e : DEnv) (Γ : Ctx) (cfg : ParserConfig) (fuel : Nat) (target : Target) (data : J) : ND Val :=
   match verifyType Γ target data with
   | .error err => ND.fail err
   | .ok tp =>
@@ -446,7 +458,7 @@ def decode (e : BEnv) (Γ : Ctx) (cfg : ParserConfig) (fuel : Nat) (target : Tar
     | _ => bindDataclassF e Γ fuel cfg tp data
 
 /-- `JsonParser.from_string` with `json.load` as a parameter -/
-def parseText {Text} (lib : JsonLib Text) (e : BEnv) (Γ : Ctx) (cfg : ParserConfig) (fuel : Nat)
+def parseText {Text} (lib : JsonLib Text) (e : DEnv) (Γ : Ctx) (cfg : ParserConfig) (fuel : Nat)
     (target : Target) (t : Text) : ND Val :=
   match lib.load t with
   | some j => decode e Γ cfg fuel target j
